@@ -137,7 +137,24 @@ fn corpus() -> Vec<Value> {
     }
     out
 }
-fn cases18(_ob: &str) -> Vec<String> { (0..corpus().len()).map(|i| format!("de:{}", i)).collect() }
+// types that deserialize through deserialize_any (serde's untagged enums buffer the self-describing reading of the value first)
+#[derive(Serialize, Deserialize, PartialEq, Debug, Clone)]
+#[serde(untagged)]
+enum UA { Items(Vec<u32>), Name(String), Flag(bool), N(i64), F(f64), Unit, Pair(u8, String), S { a: u32 } }
+#[derive(Serialize, Deserialize, PartialEq, Debug, Clone)]
+#[serde(untagged)]
+enum UB { O(Option<u32>), L(Vec<Option<u32>>), C(char) }
+fn any_corpus() -> Vec<Value> {
+    let n = |i: i64| Value::from(i);
+    vec![Value::Null, Value::Nil, list(vec![n(1), n(2), n(3)]), Value::Vector(vec![n(1), n(2), n(3)].into()), Value::Vector(vec![].into()), Value::from("x"), Value::from(true), Value::from(false), n(5), n(-5), Value::from(1.5),
+         list(vec![n(1), Value::from("a")]), Value::Vector(vec![n(1), Value::from("a")].into()), list(vec![Value::cons(sym("a"), n(1))]), list(vec![n(1)]), list(vec![Value::Nil]), list(vec![list(vec![n(1)])]), sym("a"), Value::keyword("k"),
+         Value::from('c'), Value::from(vec![1u8, 2].into_boxed_slice()), Value::cons(n(1), n(2)), Value::append(vec![Value::cons(sym("a"), n(1))], n(3)), Value::Vector(vec![list(vec![n(1)]), Value::Null].into())]
+}
+fn cases18(_ob: &str) -> Vec<String> {
+    let mut out: Vec<String> = (0..corpus().len()).map(|i| format!("de:{}", i)).collect();
+    for i in 0..any_corpus().len() { out.push(format!("any:UA:{}", i)); out.push(format!("any:UB:{}", i)); }
+    out
+}
 
 fn one<T>(v: &Value, ty: &str) -> Option<String> where T: serde::Serialize + for<'a> serde::Deserialize<'a> + PartialEq + std::fmt::Debug {
     match std::panic::catch_unwind(|| from_value::<T>(v)) {
@@ -151,6 +168,10 @@ fn one<T>(v: &Value, ty: &str) -> Option<String> where T: serde::Serialize + for
 }
 fn check18(case: &str) -> Option<String> {
     let p: Vec<&str> = case.split(':').collect();
+    if p[0] == "any" {
+        let v = any_corpus().into_iter().nth(p.get(2)?.parse::<usize>().ok()?)?;
+        return if p[1] == "UA" { one::<UA>(&v, "untagged UA") } else { one::<UB>(&v, "untagged UB") };
+    }
     let v = corpus().into_iter().nth(p.get(1)?.parse::<usize>().ok()?)?;
     None.or_else(|| one::<bool>(&v, "bool")).or_else(|| one::<i8>(&v, "i8")).or_else(|| one::<u8>(&v, "u8")).or_else(|| one::<i16>(&v, "i16")).or_else(|| one::<u16>(&v, "u16")).or_else(|| one::<i32>(&v, "i32")).or_else(|| one::<u32>(&v, "u32")).or_else(|| one::<usize>(&v, "usize")).or_else(|| one::<isize>(&v, "isize")).or_else(|| one::<i64>(&v, "i64"))
         .or_else(|| one::<Vec<u32>>(&v, "Vec<u32>")).or_else(|| one::<Option<u16>>(&v, "Option<u16>")).or_else(|| one::<(u32, i16)>(&v, "(u32, i16)")).or_else(|| one::<Option<Option<i32>>>(&v, "Option<Option<i32>>")).or_else(|| one::<BTreeMap<u32, i8>>(&v, "BTreeMap<u32, i8>")).or_else(|| one::<u64>(&v, "u64")).or_else(|| one::<f32>(&v, "f32")).or_else(|| one::<f64>(&v, "f64")).or_else(|| one::<Vec<f32>>(&v, "Vec<f32>"))
